@@ -14,6 +14,8 @@ ops
                                   `since` = `*`|t; `fr` = the frames the engine stored, batches
                                   separated by `;`, keys by `,` (`-` = none)
 * `SHOW n fr`                    SHOW n; `fr` = the frames the engine appended
+* `CUT n fr`                     SHOW n interrupted after its delta frames `fr` were stored
+                                  (catalog entry not rewritten, no response)
 * `Q ctx cmp since`              the live query
 
 observations, joined by ` ; `:
@@ -120,7 +122,7 @@ def stepOp (d : DSt) (toks : List String) : DSt :=
       | none => emit d "show:unknown"
       | some e =>
         let d := { d with st := { d.st with store := d.st.store.flushEnd } }
-        let w0 := sinkMark e.frames
+        let w0 := filterMark e
         -- what the model's own watermark filter keeps from the model's own delta query
         let want := (keptBatches w0 [deltaQuery d.st.store e]).flatten.map (·.key)
         match framesOf d.st.store.vis fr with
@@ -132,6 +134,24 @@ def stepOp (d : DSt) (toks : List String) : DSt :=
           match rows with
           | some rows => emit { d with st := st' } s!"show:{keysStr (rows.map (·.key))} mark={mk}"
           | none => emit d "show:unknown"
+    | _, _ => fail
+  | ["CUT", n, fr] =>
+    -- a SHOW that stored its delta frames and never rewrote the catalog entry
+    match n.toNat?, parseFrames fr with
+    | some n, some fr =>
+      match d.st.cat n with
+      | none => emit d "cut:unknown"
+      | some e =>
+        let d := { d with st := { d.st with store := d.st.store.flushEnd } }
+        let w0 := filterMark e
+        let want := (keptBatches w0 [deltaQuery d.st.store e]).flatten.map (·.key)
+        match framesOf d.st.store.vis fr with
+        | none => emit d s!"cut:bad-delta want={keysStr want}"
+        | some sched =>
+          if !sameKeys fr.flatten want then emit d s!"cut:bad-delta want={keysStr want}" else
+          let st' := showCut d.st n sched
+          let mk := match st'.cat n with | some e => markStr e.mark | none => "?"
+          emit { d with st := st' } s!"cut:mark={mk}"
     | _, _ => fail
   | ["Q", ctx, cmp, since] =>
     match parseOpt ctx, parseCmp cmp, parseOpt since with
